@@ -34,8 +34,15 @@ Fixpoint upd {A} (l : list A) (i : nat) (x : A) : list A :=
   end.
 Definition getA {A} (l : list A) (i : N) : res A :=
   match nth_error l (N.to_nat i) with Some x => Done x | None => Panic end.
+(* single traversal: Some (upd l i x) when i < length l, None otherwise *)
+Fixpoint upd_opt {A} (l : list A) (i : nat) (x : A) : option (list A) :=
+  match l, i with
+  | [], _ => None
+  | _ :: t, O => Some (x :: t)
+  | h :: t, S k => match upd_opt t k x with Some t' => Some (h :: t') | None => None end
+  end.
 Definition setA {A} (l : list A) (i : N) (x : A) : res (list A) :=
-  if i <? N.of_nat (length l) then Done (upd l (N.to_nat i) x) else Panic.
+  match upd_opt l (N.to_nat i) x with Some l' => Done l' | None => Panic end.
 (* index of type i16/i32 converted with `as usize`: negative values are far out of bounds *)
 Definition getZ {A} (l : list A) (z : Z) : res A := if (z <? 0)%Z then Panic else getA l (Z.to_N z).
 Definition setZ {A} (l : list A) (z : Z) (x : A) : res (list A) := if (z <? 0)%Z then Panic else setA l (Z.to_N z) x.
